@@ -375,6 +375,9 @@ def run(ctx):
     from sa.extract import VERIF as _VERIF
     import os as _os
     _wit.apply(ctx, lambda t: "R12.10", _os.path.join(_VERIF, "witness", "tl_C12.cpp"), broken_tags=("w9",))
+    if ctx.tier == "thorough":
+        _wit.apply(ctx, lambda t: "R12.10", _os.path.join(_VERIF, "witness", "tl_C12.cpp"), compiler="g++", label="g++", broken_tags=("w9",))
+        _wit.apply(ctx, lambda t: "R12.10", _os.path.join(_VERIF, "witness", "tl_C12.cpp"), std="gnu++14", label="gnu++14", broken_tags=("w9",))
     # ---- R12.11: nothing on the options path reads an object it has just moved from
     ctx.rule("R12.11", "no function of the options code reads a local / parameter after handing it to std::move (e.g. asking a moved-from token whether it was `--`)")
     from .common import rule_no_use_after_move
